@@ -19,7 +19,9 @@ pub const PUSH_POP_GAMUT: [OpParameter; 4] = [
 
 pub fn push(parameters: &RawParameters, _ctx: &dyn Context) -> Result<Op, Error> {
     let def = &parameters.definition;
-    let params = ParsedParameters::new(parameters, &PUSH_POP_GAMUT)?;
+    let mut params = ParsedParameters::new(parameters, &PUSH_POP_GAMUT)?;
+    // Tell pipeline that this is the built-in, not a user defined operator of the same name
+    params.text.insert("action", "push".to_string());
 
     let descriptor = OpDescriptor::new(def, InnerOp::default(), Some(InnerOp::default()));
     let steps = Vec::new();
@@ -35,7 +37,8 @@ pub fn push(parameters: &RawParameters, _ctx: &dyn Context) -> Result<Op, Error>
 
 pub fn pop(parameters: &RawParameters, _ctx: &dyn Context) -> Result<Op, Error> {
     let def = &parameters.definition;
-    let params = ParsedParameters::new(parameters, &PUSH_POP_GAMUT)?;
+    let mut params = ParsedParameters::new(parameters, &PUSH_POP_GAMUT)?;
+    params.text.insert("action", "pop".to_string());
 
     let descriptor = OpDescriptor::new(def, InnerOp::default(), Some(InnerOp::default()));
     let steps = Vec::new();
